@@ -85,10 +85,35 @@ def all_scenarios():
             for kind in ("small", "big"):
                 out.append(f"build-v{v}-{st}-{kind}")
     out += ["compact-v1", "compact-v4", "compact-v1-pending", "compact-v2-pending"]
+    # other shapes of the destination path ("<scenario>+<layout>"): a symbolic link to the previous archive; a file name that
+    # itself ends in .tmp (a working copy) - the same operations, judged at the same path
+    out += ["build-v1-present-small+symlink", "build-v4-present-small+symlink", "compact-v1+symlink", "build-v2-present-small+tmpname", "compact-v1+tmpname", "compact-v2-pending+tmpname"]
     return out
 
 
 def sc_fields(name):
+    base, _, layout = name.partition("+")
+    f = _sc_fields(base)
+    f["base"] = base
+    f["layout"] = layout or "plain"
+    f["destname"] = "dest.mpq.tmp" if layout == "tmpname" else "dest.mpq"
+    return f
+
+
+def place_dest(sc, d):
+    """Create the destination path of one run in directory d (previous content, if the scenario has one) and return it."""
+    dest = os.path.join(d, sc["destname"])
+    if sc["layout"] == "symlink":
+        real = os.path.join(d, "real.mpq")
+        if sc["old"]:
+            shutil.copyfile(sc["old"], real)
+        os.symlink("real.mpq", dest)
+    elif sc["old"]:
+        shutil.copyfile(sc["old"], dest)
+    return dest
+
+
+def _sc_fields(name):
     p = name.split("-")
     if p[0] == "build":
         return {"op": "build", "ver": int(p[1][1:]), "present": p[2] == "present", "kind": p[3]}
@@ -145,8 +170,10 @@ def parse_log(text):
 def _pclass(path):
     """Semantic class of a path: the destination itself, a temp sibling, or something else."""
     b = os.path.basename(path)
-    if b == "dest.mpq":
+    if b in ("dest.mpq", "dest.mpq.tmp"):
         return "dest"
+    if b == "real.mpq":
+        return "dest-link-target"
     if ".tmp" in b:
         return "temp"
     return "other"
@@ -206,7 +233,7 @@ class Ctx:
         with _lock:
             if key in self.verify_cache:
                 return self.verify_cache[key]
-        p = self.worker(["--verify", path, "--scenario", sc["name"], "--variant", sc.get("variant", "full")], cwd=os.path.dirname(path))
+        p = self.worker(["--verify", path, "--scenario", sc.get("base", sc["name"]), "--variant", sc.get("variant", "full")], cwd=os.path.dirname(path))
         ok = p.returncode == 0 and p.stdout.startswith("VERIFY-OK")
         out = (ok, (p.stdout.strip() or p.stderr.strip())[:400] + (f" [exit {p.returncode}]" if p.returncode not in (0, 3) else ""))
         with _lock:
@@ -221,7 +248,7 @@ def strace_cmd(ctx, sc, dest, log=None, inject=None):
     cmd += ["-e", "trace=" + ",".join(SET) + ",access"]
     if inject:
         cmd += ["-e", "inject=" + inject]
-    cmd += [ctx.bin, "--seed", str(ctx.seed), "--scenario", sc["name"], "--variant", sc.get("variant", "full"), "--dest", dest]
+    cmd += [ctx.bin, "--seed", str(ctx.seed), "--scenario", sc.get("base", sc["name"]), "--variant", sc.get("variant", "full"), "--dest", dest]
     return cmd
 
 
@@ -250,7 +277,7 @@ def prepare(ctx, name):
         for variant in (["full", "remove-only"] if sc["op"] == "compact" else ["full"]):
             if os.path.exists(old):
                 os.unlink(old)
-            p = ctx.worker(["--make-old", "--scenario", name, "--variant", variant, "--dest", old], cwd=d)
+            p = ctx.worker(["--make-old", "--scenario", sc["base"], "--variant", variant, "--dest", old], cwd=d)
             tried.append(f"{variant}: {p.stdout.strip()[:200]}")
             if p.returncode == 0 and p.stdout.startswith("SETUP-OK"):
                 sc["variant"] = variant
@@ -261,7 +288,7 @@ def prepare(ctx, name):
         sc["old"] = old
         sc["sha_old"] = sha256(old)
         sc["old_size"] = os.path.getsize(old)
-    p = ctx.worker(["--describe", "--scenario", name, "--variant", sc["variant"]], cwd=d)
+    p = ctx.worker(["--describe", "--scenario", sc["base"], "--variant", sc["variant"]], cwd=d)
     try:
         sc["describe"] = json.loads(p.stdout)
     except Exception:
@@ -269,9 +296,7 @@ def prepare(ctx, name):
     # baseline
     bd = os.path.join(d, "baseline")
     os.makedirs(bd, exist_ok=True)
-    dest = os.path.join(bd, "dest.mpq")
-    if sc["old"]:
-        shutil.copyfile(sc["old"], dest)
+    dest = place_dest(sc, bd)
     log = os.path.join(bd, "strace.log")
     p = subprocess.run(strace_cmd(ctx, sc, dest, log=log), cwd=bd, env=ctx.env, stdout=subprocess.PIPE, stderr=subprocess.PIPE, text=True, errors="replace", timeout=120)
     st, msg = status_of(p.stdout)
@@ -294,7 +319,7 @@ def prepare(ctx, name):
     sc["window"] = [{"k": i + 1, "name": c["name"], "ord": c["ord"], "target": c["target"]} for i, c in enumerate(win)]
     sc["N"] = len(win)
     sc["prefix_calls"] = pl["begin"]
-    leftovers = [x for x in os.listdir(bd) if x not in ("dest.mpq", "strace.log")]
+    leftovers = [x for x in os.listdir(bd) if x not in (sc["destname"], "real.mpq", "strace.log")]
     sc["baseline_leftovers"] = leftovers
     shutil.rmtree(bd, ignore_errors=True)
     return sc
@@ -313,9 +338,7 @@ def run_point(ctx, sc, pt, keep=False):
     rd = os.path.join(sc["dir"], tag)
     shutil.rmtree(rd, ignore_errors=True)
     os.makedirs(rd)
-    dest = os.path.join(rd, "dest.mpq")
-    if sc["old"]:
-        shutil.copyfile(sc["old"], dest)
+    dest = place_dest(sc, rd)
     out = {"scenario": sc["name"], "point": pt, "tag": tag}
     try:
         if pt["kind"] == "inject":
@@ -383,10 +406,10 @@ def run_point(ctx, sc, pt, keep=False):
     out["at"] = at["text"] if at else None
     # ---- post-mortem state of the destination path
     listing = sorted(os.listdir(rd))
-    out["leftovers"] = [x for x in listing if x not in ("dest.mpq", "strace.log")]
+    out["leftovers"] = [x for x in listing if x not in (sc["destname"], "real.mpq", "strace.log")]
     if not os.path.lexists(dest):
         state, vwhy = "absent", ""
-    elif not os.path.isfile(dest):
+    elif not os.path.isfile(dest):      # (follows a symbolic link: a dangling link is "other")
         state, vwhy = "other", "destination is not a regular file"
     else:
         dg = sha256(dest)
@@ -402,7 +425,7 @@ def run_point(ctx, sc, pt, keep=False):
         out.update({"verdict": "inconc", "why": "worker-setup-failed"})
     elif clause:
         mode = pt["mode"]
-        sig = f"{clause}|{sc['op']}|v{sc['ver']}|dest-{'present' if sc['old'] else 'absent'}|{mode}|{out['syscall']}"
+        sig = f"{clause}|{sc['op']}|v{sc['ver']}|dest-{'present' if sc['old'] else 'absent'}{'' if sc['layout'] == 'plain' else '-' + sc['layout']}|{mode}|{out['syscall']}"
         out["verdict"] = "viol"
         out["sig"] = sig
         out["what"] = (f"{sc['name']}: fault {tag} at {out['syscall']} ({'fired in window' if fired else 'NOT seen in window'}); worker status {st} {msg!r}; "
@@ -510,7 +533,7 @@ def fsize_limits(sc, tier):
 
 
 def fsize_points(sc, tier):
-    if sc["name"].endswith("-pending"):
+    if sc.get("base", sc["name"]).endswith("-pending"):
         # a file-size limit cannot be scoped to the window: it would already hit the session's set-up writes before compact
         return []
     return [{"kind": "fsize", "limit": L, "mode": m} for L in fsize_limits(sc, tier) for m in ("fsize-ign", "fsize-kill")]
